@@ -846,6 +846,8 @@ func catalogue(w *world) []*entry {
 		})
 	}
 	_ = pkix.Name{}
+	// the consuming entry points again, over a grid of values of their structural arguments (context.go)
+	ctxEntries(w, add)
 	// entry points that decrypt content with an SM4 mode (CBC/ECB/GCM/CFB/OFB, fused or generic by dispatch tier):
 	// swept again in the tiers that select another implementation (workload c13.sweep.tiers)
 	left := map[string]bool{}
